@@ -20,7 +20,7 @@ T = {
          'trusted: reference model; labels from a fixed pool of all three variants, built directly and through from_str; data lengths 0..40',
          'model-based stateful property testing, per-call full-observation oracle'),
  'C04': ('gcmodel', 'exploration',
-         'Generated re-add-heavy histories; blankness oracle after add on absent ids, and a metamorphic relation (deleting every add of a present id leaves the whole observation trace unchanged). Exploration only.',
+         'Generated re-add-heavy histories; blankness oracle after add on absent ids (kid() probed for every label the collected vertex had, data marker, later reads), and a metamorphic relation (deleting every add of a present id leaves the whole observation trace unchanged). Exploration only.',
          'trusted: reference model for the absent/present judgement; the metamorphic part compares the implementation with itself',
          'stateful property testing with a metamorphic oracle (delete the re-add) plus reference model'),
  'C05': ('gcmodel', 'exploration',
@@ -44,11 +44,11 @@ T = {
          'fault model: a crash leaves a byte prefix of the image; load() called with the N used for save()',
          'fault enumeration (every truncation point) over proptest-generated graphs'),
  'C10': ('twin', 'exploration',
-         'Differential twin runs original vs clone with identical continuations (incl. next_id and merge), plus an independence check: mutating one copy leaves the complete observation of the other unchanged and the other still drains exactly as the reference model says.',
+         'Differential twin runs original vs clone (made by clone() or by clone_from() into another store, bigger and with vertices of its own, or older) with identical continuations (incl. next_id and merge), plus an independence check: mutating one copy leaves the complete observation of the other unchanged and the other still drains exactly as the reference model says.',
          'trusted: the interpreter and, for the independence drain, the reference model',
          'differential twin stateful property testing (original vs clone), metamorphic independence check'),
  'C11': ('treegen', 'exploration',
-         'Generated pairs of trees built through the API (random shapes, wide stars, many-group chains) plus every pair of trees up to 3 (quick) / 4 (thorough) vertices enumerated; the result of merge() is explained path-wise as a graft by an independent walk, compared vertex by vertex with the reference model that performed the equivalent add/bind/put calls, and drained through the epilogue (data bytes, collections).',
+         'Generated pairs of trees built through the API (random shapes, wide stars, many-group chains, identical/read data on both sides, stores without a spare slot) plus every pair of trees up to 3 (quick) / 4 (thorough) vertices enumerated; the result of merge() is explained path-wise as a graft by an independent walk, compared vertex by vertex with the reference model that performed the equivalent add/bind/put calls, and drained through the epilogue (data bytes, collections).',
          'trusted: reference model and graft() in harness/src/interp.rs; trees <= 8 vertices, labels from a pool of 4; merges that would exceed a limit are skipped and counted',
          'property-based testing over generated tree pairs; oracle = independent path-wise graft + reference model'),
  'C12': ('treegen', 'exploration',
@@ -56,15 +56,15 @@ T = {
          'trusted: the generator knows which right vertices are unreachable by construction',
          'property-based testing over generated graph pairs; oracle = reachability by construction'),
  'C13': ('digraph', 'exploration',
-         'Generated digraphs (cycles, shared targets, parallel labels) and post-collection history graphs; every present start vertex; slice and slice_some under generated predicates compared with an independent BFS on the reference model; source unchanged; non-termination detected by stack overflow / per-case watchdog.',
+         'Generated digraphs (cycles, shared targets, parallel labels, fans with N or N-1 labels on one vertex for N up to 32) and post-collection history graphs; every present start vertex; slice and slice_some under generated predicates compared with an independent BFS on the reference model; source unchanged; non-termination detected by stack overflow / per-case watchdog.',
          'trusted: reference model edges, BFS in harness/src/props/digraph.rs; <=14 reachable vertices as the property requires',
          'property-based testing over generated digraphs; oracle = independent reachability computation'),
  'C14': ('scriptgen', 'exploration',
-         'Differential twin: deploy_to(text) vs the direct API calls for generated programs under generated legal formatting; single-fault corruptions are classified by an independent strict parser (well-formed / malformed at command k / unspecified) and judged accordingly (Err without panic, prefix applied).',
+         'Differential twin: deploy_to(text) vs the direct API calls for generated programs (literal ids and $variables with names up to 14 characters, on empty graphs and on graphs with a generated history incl. dangling edges) under generated legal formatting; single-fault corruptions are classified by an independent strict parser (well-formed / malformed at command k / unspecified) and judged accordingly (Err without panic, prefix applied).',
          'trusted: the strict parser of the documented grammar (harness/src/props/script.rs); unspecified syntax is skipped and counted',
          'grammar-based generation + differential twin (script vs calls) + fault injection classified by an independent parser'),
  'C15': ('hexenum', 'exploration',
-         'Differential against Rust slice semantics: for generated contents, every length 0..=12 in three representations and the complete index/range space up to 14 plus usize::MAX ends; equal result or both panic. The index space is exhaustive per content, the contents are sampled.',
+         'Differential against Rust slice semantics: for generated contents, every length 0..=12 in three representations and the complete index/range space up to 14 plus usize::MAX ends; equal result or both panic; single-bit inequality for every bit of lengths 1..=9; exhausted inclusive ranges; long strings up to 65 537 bytes at sampled positions. The index space is exhaustive per content, the contents are sampled.',
          'trusted: Rust slice indexing as the oracle; bounds: lengths <=12, indices <=14 and the two largest usize',
          'bounded-exhaustive enumeration of the index space over proptest-generated contents; differential oracle (byte slice)'),
  'C16': ('concatenum', 'exploration',
@@ -72,7 +72,7 @@ T = {
          'trusted: Vec concatenation as the oracle; known_findings.json signature concat.inline_spill_padding',
          'bounded-exhaustive enumeration of the length space over proptest-generated contents; oracle = byte concatenation'),
  'C18': ('digraph', 'exploration',
-         'Generated graphs (digraph builder and histories with collections); XML parsed with sxd-document and DOT with a line grammar, compared with the reference model (node set in ascending order, edges, data); metamorphic rebuild of the same present graph in another way must give byte-identical text.',
+         'Generated graphs (digraph builder and histories with collections); XML parsed with sxd-document and DOT with a line grammar, compared with the reference model (node set in ascending order, edges, data); metamorphic rebuild of the same present graph in another way must give byte-identical text; a bounded-exhaustive sweep of datum lengths (0..=9000 quick / 0..=40000 thorough and windows around 64 KiB..1 MiB) through both exporters.',
          'trusted: reference model; sxd-document parser; the DOT line grammar of src/dot.rs',
          'property-based testing; parse-back oracle against the reference model + metamorphic rebuild'),
  'C20': ('digraph', 'exploration',
@@ -80,11 +80,11 @@ T = {
          'trusted: reference model; the text parsers in harness/src/props/digraph.rs; what is printed beneath an edge to a collected vertex is not judged',
          'property-based testing over generated digraphs; parse-back oracle against the reference model'),
  'C19': ('multi-config', 'exploration',
-         'The same generated history is replayed twice in one process, in another process (sampled) and under a second (N, capacity) configuration; complete observation traces incl. kids() order, next_id results and merge-created ids must be identical.',
+         'The same generated history (incl. slice_some under fixed predicates from every eligible vertex, clone_from into another store) is replayed twice in one process, in another process (sampled) and under a second (N, capacity) configuration; complete observation traces incl. kids() order, next_id results and merge-created ids must be identical.',
          'differential: implementation vs itself; histories generated inside the limits of the smaller configuration',
          'differential replay across runs, processes and configurations of proptest-generated histories'),
  'C17': ('labels', 'exploration',
-         'All texts up to length 4 (quick) / 5 (thorough) over a 14-symbol alphabet enumerated completely, longer and arbitrary-unicode texts generated; round trips in both directions, injectivity, rejection, and a graph lookup under parsed vs constructed labels.',
+         'All texts up to length 4 (quick) / 5 (thorough) over a 14-symbol alphabet enumerated completely, longer and arbitrary-unicode texts generated, α indices around every power of ten and two; round trips in both directions, injectivity, rejection, and a graph lookup under parsed vs constructed labels.',
          'trusted: the independent classifier of the documented text grammar (classify_text in harness/src/props/hexlab.rs); unspecified texts are skipped and counted',
          'bounded-exhaustive text enumeration + proptest-generated texts; round-trip / injectivity oracles'),
 }
